@@ -187,6 +187,13 @@ class OptimizeAnalysis:
             if kind == "stmt" and isinstance(st, (ast.Assign, ast.AugAssign)) and self._stores_pose(st):
                 self.role[n] = ("sweep", st)
                 continue
+            if kind == "stmt" and isinstance(st, ast.Expr) and isinstance(st.value, ast.Call) and isinstance(st.value.func, ast.Attribute):
+                # an in-place method on a pose (v.pose.normalize(), v.pose.fill(...), np.copyto is handled through effects)
+                from .effects import MUTATOR_METHODS
+                recv = st.value.func.value
+                if st.value.func.attr in MUTATOR_METHODS and any(isinstance(x, ast.Attribute) and x.attr == "pose" for x in ast.walk(recv)):
+                    self.role[n] = ("sweep", st)
+                    continue
             calls = [x for x in ast.walk(st) if isinstance(x, ast.Call)] if kind in ("stmt", "return") else \
                     [x for e in header_of(st, kind) for x in ast.walk(e) if isinstance(x, ast.Call)]
             for c in calls:
